@@ -204,6 +204,7 @@ func (sc *SlotChain) Entry(ctx *EntryContext) *TokenResult {
 	// execute statistic slot
 	ss := sc.stats
 	ruleCheckRet = ctx.RuleCheckResult
+	ctx.outcomeRecorded = true
 	if len(ss) > 0 {
 		for _, s := range ss {
 			// indicate the result of rule based checking slot.
@@ -226,6 +227,11 @@ func (sc *SlotChain) exit(ctx *EntryContext) {
 	}
 	// The OnCompleted is called only when entry passed
 	if ctx.IsBlocked() {
+		return
+	}
+	if !ctx.outcomeRecorded {
+		// The chain panicked before the statistic slots saw OnEntryPassed (the request was passed
+		// anyway): a completion must not be recorded for a pass that never was.
 		return
 	}
 	for _, s := range sc.stats {
